@@ -74,15 +74,14 @@ def unitOf (conv : Char) (hasPrec : Bool) (prec : Int) (x : Rat) : Rat :=
 
 def absQ (q : Rat) : Rat := if q < 0 then -q else q
 
+/-- the arithmetic core of the canonicalisation: window `w`, unit `u`, argument `x`, printed value `v` -/
+def tieLower (w u x v : Rat) : Option Rat :=
+  if w ≤ u / 4 && absQ (absQ (v - x) - u / 2) ≤ w then some (if v > x then v - u else v) else none
+
 /-- `some lower` iff the text is in the tie class of (directive, x) -/
 def tieCanon (conv : Char) (hasPrec : Bool) (prec : Int) (x : Rat) (text : List Char) : Option Rat :=
   if x ≤ 0 || prec > 5000 then none else
-  let u := unitOf conv hasPrec prec x
-  let v := textValue text
-  let w1 := x / ((2 ^ 46 : Nat) : Rat)
-  let w2 := u / 4
-  let dl := absQ (absQ (v - x) - u / 2)
-  if w1 ≤ w2 && dl ≤ w1 then some (if v > x then v - u else v) else none
+  tieLower (x / ((2 ^ 46 : Nat) : Rat)) (unitOf conv hasPrec prec x) x (textValue text)
 
 /-- the unit of the last digit is FINE against the engine's accumulated error (the window of `tieCanon` is not
 used): only there the question "did the engine see a tie" (`tieSeen`) is asked -/
